@@ -263,18 +263,20 @@ class PB(explore.Problem):
         self.ops = [('ev', a) for a in self.targets] + [('set', i, v) for i in fam['inputs'] for v in values]
         self.path = None
         self.compared = 0
+        self.plugins = 'mc.plugins' if 'plugins' in fam.get('tags', ()) else None      # a model that uses plugin functions
         m = self.build()
         self.path = save(m, os.path.join(tmp, 'm'), fmt)
 
     def build(self):
-        m = W.compile_inmem(self.spec, cycles=True if self.cycles else None)
+        m = W.compile_inmem(self.spec, cycles=True if self.cycles else None, plugins=self.plugins)
         for a in self.cells + (self.fam['ranges'] if len(self.cells) != len(self.fam['cells']) else []):
             ev(m, a)
         return m
 
     def new(self):
         from pycel.excelcompiler import ExcelCompiler
-        return {'o': self.build(), 'l': ExcelCompiler.from_file(self.path), 'written': False}
+        ld = ExcelCompiler.from_file(self.path, plugins=self.plugins) if self.plugins else ExcelCompiler.from_file(self.path)
+        return {'o': self.build(), 'l': ld, 'written': False}
 
     def step(self, st, op):
         if op[0] == 'ev':
@@ -310,7 +312,7 @@ class PB(explore.Problem):
     def case(self, hist, op, obs):
         return dict(kind='lockstep', part='B', verdict='differs', fmt=self.fmt, cycles=self.cycles, item=self.fam['name'],
                     members=len(self.cells) == len(self.fam['cells']),
-                    fam={k: self.fam[k] for k in ('name', 'spec', 'ranges', 'unbounded', 'inputs', 'cells')},
+                    fam={k: self.fam.get(k) for k in ('name', 'spec', 'ranges', 'unbounded', 'inputs', 'cells', 'tags')},
                     hist=[list(o) for o in hist], op=list(op), observed=jsonable(obs))
 
 
@@ -500,7 +502,9 @@ def work_saves(job):
     k0, m, depth = job
     from pycel.excelcompiler import ExcelCompiler
     acc = Acc()
-    if depth == 'patterns':
+    if isinstance(depth, list):
+        hists = [tuple((o[0], tuple(o[1]) if isinstance(o[1], list) else o[1]) if len(o) > 1 else tuple(o) for o in depth)]
+    elif depth == 'patterns':
         # three saves with a write before each: every combination of file types, the third write going back to the first
         # value (the text then equals the one of the first save) or on to a new one
         hists = [(('set', 5), ('save', t1), ('set', 6), ('save', t2), ('set', v3), ('save', t3))
@@ -679,6 +683,11 @@ def run(ctx):
         if 'cse' in f.get('tags', ()):
             for fmt in ('yml', 'json', 'pkl'):
                 jobs.append((f, fmt, False, vals[:2], 3, 12000, False))
+    # a workbook whose formulas call plugin functions, one of them inside a range that is saved
+    pf = dict(name='plugin_range', spec=family.S({'A1': 1, 'A2': '=VTICK(1,A1)*3', 'B1': '=SUM(A1:A2)', 'C1': '=VTICK(2,B1)+1'}),
+              ranges=['S!A1:A2'], unbounded=[], inputs=['S!A1'], cells=['S!A1', 'S!A2', 'S!B1', 'S!C1'], tags=['plugins'])
+    for fmt in FORMATS:
+        jobs.append((pf, fmt, False, vals[:2], 3, 12000))
     ctx.pmap(work_lockstep, jobs, timeout=3000)
     # C
     ctx.pmap(work_rules, [(f, cyc) for f in fams for cyc in (False, True)] + [(f, 'bare') for f in fams[:6]], timeout=1200)
@@ -722,6 +731,8 @@ def replay(case):
             return bool(msg), '\n'.join(lines)
         finally:
             shutil.rmtree(tmp, ignore_errors=True)
+    elif case['part'] == 'C2':
+        r = work_saves((0, 1, case['hist']))
     elif case['part'] == 'C':
         r = work_rules((case['fam'], case['cycles']))
     else:
